@@ -117,16 +117,21 @@ def materialize(ctx, arr):
     if z3.is_app(body) and body.decl().kind() == z3.Z3_OP_SELECT and body.arg(1).eq(probe) and z3.is_const(body.arg(0)):
         A = body.arg(0)     # already an SMT array read at the index: use it directly
     else:
-        A = z3.Const(ctx.fresh_name("arr"), ARR)
-        ctx.assume(z3.ForAll([probe], z3.Implies(z3.And(probe >= 0, probe < lift(n)), A[probe] == body)))
+        # lambda array: A[i] beta-reduces to the pointwise expression, so lemma hypotheses about A[i]
+        # become statements about the expressions themselves
+        A = z3.Lambda([probe], body)
     # sums over pointwise-equal arrays are equal: instance of lemma sum_ext against every array of this length
     stmt_ext = LEMMAS["sum_ext"][0]
-    for (k2, n2), B in list(cache.items()):
-        if n2 == key[1]:
-            ctx.assume(stmt_ext(A, B, lift(n)))
-            ctx.assume(stmt_ext(B, A, lift(n)))
-            ctx.ghost.setdefault("auto_lemmas", set()).add("sum_ext")
+    lens = ctx.ghost.setdefault("materialized_len", {})
+    for k2, B in list(cache.items()):
+        nB = lens[k2]
+        same = z3.simplify(lift(n) - nB == 0) if not isinstance(n, int) or not z3.is_int_value(nB) else z3.BoolVal(n == nB.as_long())
+        if z3.is_false(same):
+            continue
+        ctx.assume(z3.Implies(lift(n) == nB, stmt_ext(A, B, lift(n))))
+        ctx.ghost.setdefault("auto_lemmas", set()).add("sum_ext")
     cache[key] = A
+    lens[key] = lift(n)
     return A
 
 
@@ -269,3 +274,10 @@ def _mk_shift_reverse():
 
 
 LEMMAS.update(_mk_shift_reverse())
+
+
+def algebraic_lemma(name, nargs, builder):
+    """register a quantifier-free algebraic fact over reals: builder(*z3 reals) -> z3 Bool.  It is proved in
+    isolation (one obligation, pure QF_NRA) in every run that uses it and may then be instantiated."""
+    consts = [z3.Real("al_%s_%d" % (name, i)) for i in range(nargs)]
+    LEMMAS[name] = (lambda *a: builder(*[sym.to_real(x) for x in a]), [("direct", [], builder(*consts))])
